@@ -8,7 +8,11 @@ the Go source by factgen (`Vflow.Gen.OptionsTbl`).  `run` interprets a stage lis
 process: environment, the file system as seen by `ioutil.ReadFile`+`yaml.Unmarshal`, `os.Args`.
 `loadCfg` locates the file by its own scan of `os.Args` (`findConfig`: the first word spelling the config
 flag in one of the four ways package `flag` accepts, `cfgWord`; before the repair of F22 only the exact
-word `-config`); package `flag` reads the command line word by word (`wordOf`, `parseArgs`).
+word `-config`); package `flag` reads the command line word by word (`wordOf`, `parseArgs`) and stops at
+the first word that is neither a flag nor the value of one; what it leaves (`flag.Args()`, `strayArgs`) is
+refused by `flagSet` since the repair of F31 (`Stage.refuseStray`: `exit 2`).  What the command line *says*
+is a definition of its own, not the parser's: `cliGiven` reads every `-key value` / `-key=value` / bare
+boolean `-key` of the whole token list (nothing ends that scan), `cliSource` is the source it makes.
 Core Lean only.
 
 Not modelled (documented in DESIGN.md C17): the list-valued `sflow-type-filter`; fields without a yaml
@@ -63,6 +67,9 @@ inductive Stage where
   | register
   /-- `flag.Parse()` -/
   | parse
+  /-- `if flag.NArg() > 0 { fmt.Fprintf(os.Stderr, …); os.Exit(2) }` (F31): a command line with a positional
+  argument — a word that is neither a flag nor the value of one — is refused -/
+  | refuseStray
   | unrecognised (goText : String)
 deriving DecidableEq, Repr
 
@@ -329,6 +336,31 @@ def parseArgs (regs : List FlagReg) : Nat → List String → Outcome (List (Opt
               | some val => continueWith val rest'
               | none => .exit 2
 
+/-- `flag.Args()` after `FlagSet.Parse`: the words left when parsing stopped at the first non-flag word
+(that word and everything behind it) or at `--` (everything behind it); nothing when the parse ended the
+process or consumed every word.  Same recursion as `parseArgs`. -/
+def strayArgs (regs : List FlagReg) : Nat → List String → List String
+  | 0, _ => []
+  | fuel+1, args =>
+    match args with
+    | [] => []
+    | s :: rest =>
+      match wordOf s with
+      | .nonflag => s :: rest
+      | .terminator => rest
+      | .bad => []
+      | .flag name v? =>
+        match regs.find? (fun r => r.name = name) with
+        | none => []
+        | some reg =>
+          match reg.kind, v? with
+          | .bool, none => strayArgs regs fuel rest
+          | _, some _ => strayArgs regs fuel rest
+          | _, none =>
+            match rest with
+            | [] => []
+            | _ :: rest' => strayArgs regs fuel rest'
+
 /-- the last assignment to each field wins -/
 def lastOf (l : List (Option String × Val)) : Source :=
   fun f => (l.reverse.find? (fun p => p.1 = some f)).map (·.2)
@@ -371,6 +403,8 @@ def step (tbl : List Row) (inp : Inputs) (st : St) : Stage → Outcome St
     | .ok l => .ok { st with vals := apply st.vals (lastOf l) }
     | .exit c => .exit c
     | .panic => .panic
+  | .refuseStray =>
+    if (strayArgs st.regs (inp.args.length + 1) inp.args).isEmpty then .ok st else .exit 2
   | .unrecognised _ => .panic
 
 def runFrom (tbl : List Row) (inp : Inputs) (st : St) : List Stage → Outcome St
@@ -382,15 +416,76 @@ def run (tbl : List Row) (stages : List Stage) (inp : Inputs) : Outcome Settings
   (runFrom tbl inp ⟨defaults tbl, []⟩ stages).bind (fun st => .ok st.vals)
 
 /-- the order `flagSet` must have -/
-def canonicalStages : List Stage := [.registerConfig, .env, .file, .register, .parse]
+def canonicalStages : List Stage := [.registerConfig, .env, .file, .register, .parse, .refuseStray]
+
+/-- `flagSet` before the repair of F31: nothing looked at what `flag.Parse()` left -/
+def stagesBeforeF31 : List Stage := [.registerConfig, .env, .file, .register, .parse]
 
 /-! ## specification -/
 
-/-- the command line as a source: what `flag.Parse` assigns given all flags are registered -/
+/-- the command line as a source, as package `flag` reads it: what `flag.Parse` assigns given all flags are
+registered (it stops at the first positional word; `cliSource` below does not) -/
 def flagSource (tbl : List Row) (args : List String) : Source :=
   match parseArgs (configReg :: regsOf tbl) (args.length + 1) args with
   | .ok l => lastOf l
   | _ => fun _ => none
+
+/-! ### what the command line says (not the parser: F31)
+
+docs/config.md writes the command line as `-key value`, for every key.  `cliGiven` reads the token list
+that way from the first word to the last — a word that names no key says nothing and ends nothing:
+* `-key=value` / `--key=value` gives `value`;
+* `-key` / `--key` followed by a word that is not itself spelt like a flag gives that word (also for a
+  boolean key: `-ipfix-enabled false` says `false`);
+* a boolean `-key` followed by nothing or by a flag-like word gives `true`;
+* a non-boolean `-key` takes the next word whatever it looks like (`-sflow-port -5`).
+How ONE word spells a key (one or two dashes, the name up to the first `=`) is `wordOf`; which keys are
+boolean comes from the option table. -/
+
+/-- the `(key, text)` pairs the command line gives, in order -/
+def cliGiven (isBool : String → Bool) : List String → List (String × String)
+  | [] => []
+  | [s] =>
+    match wordOf s with
+    | .flag k (some v) => [(k, v)]
+    | .flag k none => if isBool k then [(k, "true")] else []
+    | _ => []
+  | s :: w :: rest =>
+    match wordOf s with
+    | .flag k (some v) => (k, v) :: cliGiven isBool (w :: rest)
+    | .flag k none =>
+      if isBool k && wordOf w != .nonflag then (k, "true") :: cliGiven isBool (w :: rest)
+      else (k, w) :: cliGiven isBool rest
+    | _ => cliGiven isBool (w :: rest)
+
+/-- the flag registered under a name once `flagSet` has registered everything: the key table -/
+def flagOf (tbl : List Row) (k : String) : Option FlagReg :=
+  (configReg :: regsOf tbl).find? (fun r => r.name = k)
+
+/-- the flag registered under the name is a boolean one -/
+def boolIn (regs : List FlagReg) (k : String) : Bool :=
+  match regs.find? (fun r => r.name = k) with
+  | some reg => reg.kind == .bool
+  | none => false
+
+/-- the key is a boolean one -/
+def boolKey (tbl : List Row) (k : String) : Bool := boolIn (configReg :: regsOf tbl) k
+
+/-- the text the command line gives for a key: its last mention -/
+def cliMentions (tbl : List Row) (args : List String) (k : String) : Option String :=
+  ((cliGiven (boolKey tbl) args).reverse.find? (fun p => p.1 = k)).map (·.2)
+
+/-- one mention as an assignment: the key's field (`none`: the local `config` string) and the text read as a
+value of the key's kind; `none` when the key is unknown or the text is no such value -/
+def assignOf (regs : List FlagReg) (p : String × String) : Option (Option String × Val) :=
+  match regs.find? (fun r => r.name = p.1) with
+  | some reg => (flagValue reg.kind p.2).map (fun val => (reg.target, val))
+  | none => none
+
+/-- the command line as a source, from what it says: every mention of a known key with a well-formed value,
+the last one per field wins -/
+def cliSource (tbl : List Row) (args : List String) : Source :=
+  lastOf ((cliGiven (boolKey tbl) args).filterMap (assignOf (configReg :: regsOf tbl)))
 
 /-- the documented rule: command line, else configuration file, else environment, else built-in default -/
 def resolve (dflt : Settings) (env file flags : Source) (f : String) : Val :=
